@@ -9,8 +9,8 @@ import random
 # number of integer arguments after the mnemonic
 ARITY = {"N": 7, "X": 1, "S": 1, "H": 1, "R": 1, "RF": 1, "L": 1, "LB": 1, "G": 6, "MV": 4, "RZ": 4,
          "E": 5, "EA": 1, "F": 0, "SC": 3, "SK": 3, "SR": 7, "TR": 2, "TF": 1, "CP": 3, "CV": 2, "CS": 2,
-         "CB": 2, "FN": 2, "ST": 2, "K": 0, "MS": 4, "CL": 2, "MU": 4}
-RACT_ARITY = {"ea": 1, "ex": 5, "sh": 1, "hi": 1, "ra": 1, "rf": 1, "lo": 1, "lb": 1, "xc": 1, "xd": 1}
+         "CB": 2, "FN": 2, "ST": 2, "K": 0, "MS": 4, "CL": 2, "MU": 4, "BR": 2}
+RACT_ARITY = {"ea": 1, "ex": 5, "sh": 1, "hi": 1, "ra": 1, "rf": 1, "lo": 1, "lb": 1, "xc": 1, "xd": 1, "fl": 1, "rg": 5}
 DOP_ARITY = {"p": 0, "k": 0, "c": 2, "r": 4, "t": 3, "e": 3, "s": 3, "h": 3, "v": 3}
 
 
